@@ -2086,6 +2086,8 @@ def preprocess_file(
     def expand_func_macro(def_name: str, def_value: tuple[str, str]):
         def_args, sub = def_value
         def_args = def_args.split(",")
+        # The macro body is literal text, not a regex replacement template
+        sub = sub.replace("\\", "\\\\")
         regex = re.compile(rf"\b{def_name}\s*\({','.join(['(.*)']*len(def_args))}\)")
 
         for i, arg in enumerate(def_args, start=1):
@@ -2305,6 +2307,9 @@ def preprocess_file(
 
             if isinstance(def_regex, tuple):
                 def_regex, value = def_regex
+            else:
+                # The macro body is literal text, not a regex replacement template
+                value = value.replace("\\", "\\\\")
 
             line_new, nsubs = def_regex.subn(value, line)
             if nsubs > 0:
